@@ -261,6 +261,19 @@ def _obj_binop(t, a, b, n=None, inplace=False):
     raise Unsupported('operator on records: %s' % (ast.unparse(n) if n is not None else dn))
 
 
+def _unparse(n):
+    """ast.unparse with the text kept on the node (the same nodes are evaluated many times)"""
+    try:
+        return n._tl_text
+    except AttributeError:
+        t = ast.unparse(n)
+        try:
+            n._tl_text = t
+        except Exception:
+            pass
+        return t
+
+
 def _kw(n, env, funcs):
     out = {}
     for k in n.keywords:
@@ -285,13 +298,21 @@ def ev(n, env, funcs=None):
             return funcs['__name__'](n.id)
         raise Unsupported('free name %s' % n.id)
     if isinstance(n, ast.Attribute):
-        txt = ast.unparse(n)
+        txt = _unparse(n)
         if txt in env:
             return env[txt]
-        if txt in ('math.inf', 'np.inf', 'numpy.inf', 'sys.float_info.max'):
+        if txt in ('math.inf', 'np.inf', 'numpy.inf'):
             return float('inf')
+        if txt.startswith('sys.float_info.') and hasattr(__import__('sys').float_info, n.attr):
+            return getattr(__import__('sys').float_info, n.attr)
         if txt in ('math.pi', 'np.pi'):
             return 3.141592653589793
+        if isinstance(n.value, ast.Name) and n.value.id == 'math' and 'math' not in env:
+            import math as _math
+            if hasattr(_math, n.attr):
+                return getattr(_math, n.attr)       # math.sqrt taken as a value (handed to a pointwise operator)
+        if isinstance(n.value, ast.Name) and n.value.id in ('np', 'numpy') and n.value.id not in env and funcs and n.attr in funcs:
+            return funcs[n.attr]
         v = ev(n.value, env, funcs)
         if isinstance(v, Table) and hasattr(v, 'attrs') and n.attr in v.attrs:
             return v.attrs[n.attr]
@@ -333,24 +354,31 @@ def ev(n, env, funcs=None):
             return base[idx]
         if isinstance(base, (list, tuple)) and isinstance(idx, int) and not isinstance(idx, bool):
             if not -len(base) <= idx < len(base):
-                raise IndexError('index %d out of range (length %d) in %s' % (idx, len(base), ast.unparse(n)))
+                raise IndexError('index %d out of range (length %d) in %s' % (idx, len(base), _unparse(n)))
             return base[idx]
         if isinstance(base, (list, tuple, str)) and isinstance(idx, slice):
             return base[idx]
         if isinstance(base, str) and isinstance(idx, int) and -len(base) <= idx < len(base):
             return base[idx]
-        raise Unsupported('subscript %s' % ast.unparse(n))
+        raise Unsupported('subscript %s' % _unparse(n))
     if isinstance(n, ast.Constant):
         return n.value
     if isinstance(n, ast.Call):
         f = n.func
         fname = f.id if isinstance(f, ast.Name) else (f.attr if isinstance(f, ast.Attribute) else None)
+        if fname is None:
+            callee = ev(f, env, funcs)          # a callable taken from a table, returned by a call, ...
+            if not callable(callee):
+                raise TypeError('%r object is not callable' % type(callee).__name__)
+            return callee(*_args(n, env, funcs), **_kw(n, env, funcs))
+        if isinstance(f, ast.Name) and f.id in env and callable(env[f.id]) and not isinstance(env[f.id], type):
+            return env[f.id](*_args(n, env, funcs), **_kw(n, env, funcs))      # a local bound to a function (lambda, parameter)
         if isinstance(f, ast.Attribute) and fname == 'is_integer' and not n.args:
             v = ev(f.value, env, funcs)
             if isinstance(v, (int, float)):
                 return float(v).is_integer()
             raise Unsupported('is_integer on a non-number')
-        if isinstance(f, ast.Attribute) and ast.unparse(f.value) not in ('math', 'np', 'numpy', 'tracklib', 'progressbar'):
+        if isinstance(f, ast.Attribute) and _unparse(f.value) not in ('math', 'np', 'numpy', 'tracklib', 'progressbar'):
             try:
                 rv = ev(f.value, env, funcs)
             except Unsupported:
@@ -373,7 +401,7 @@ def ev(n, env, funcs=None):
             if isinstance(rv, Obj) and fname in rv.methods:
                 rv.depth += 1
                 try:
-                    if rv.depth > 6:
+                    if rv.depth > 60:
                         raise Unsupported('recursion in %s' % fname)
                     return rv.call(fname, *_args(n, env, funcs), **_kw(n, env, funcs))
                 finally:
@@ -391,7 +419,7 @@ def ev(n, env, funcs=None):
         if fname == 'isinstance' and len(n.args) == 2:
             v0 = ev(n.args[0], env, funcs)
             cls = n.args[1].elts if isinstance(n.args[1], ast.Tuple) else [n.args[1]]
-            names = {ast.unparse(c).split('.')[-1] for c in cls}
+            names = {_unparse(c).split('.')[-1] for c in cls}
             if isinstance(v0, Obj):
                 return True if not v0.isa else bool(v0.isa & names)
             if isinstance(v0, PyStub):
@@ -405,14 +433,12 @@ def ev(n, env, funcs=None):
             if isinstance(a_, ast.Starred):
                 sv = ev(a_.value, env, funcs)
                 if not isinstance(sv, (list, tuple)):
-                    raise Unsupported('starred argument %s' % ast.unparse(a_))
+                    raise Unsupported('starred argument %s' % _unparse(a_))
                 args.extend(sv)
             else:
                 args.append(ev(a_, env, funcs))
         if fname == 'float' and len(args) == 1 and isinstance(args[0], str):
-            if args[0].lower().lstrip('+') in ('inf', 'infinity'):
-                return float('inf')
-            raise Unsupported('float of a string')
+            return float(args[0])           # ValueError for text that is not a number, as in Python (isfloat() relies on it)
         if isinstance(f, ast.Name) and fname == 'eval' and len(args) == 1 and isinstance(args[0], str):
             # eval of a text built by the code (an aggregate name applied to a local): evaluated by this interpreter in the same environment
             try:
@@ -441,7 +467,7 @@ def ev(n, env, funcs=None):
                     for k_, v_ in src_:
                         d_[k_] = v_
                 else:
-                    raise Unsupported('dict(%s)' % ast.unparse(n.args[0]))
+                    raise Unsupported('dict(%s)' % _unparse(n.args[0]))
             for k in n.keywords:
                 if k.arg:
                     d_[k.arg] = ev(k.value, env, funcs)
@@ -528,7 +554,7 @@ def ev(n, env, funcs=None):
                 return target(*args, **kw_)
         if fname in env and callable(env[fname]):
             return env[fname](*args, **kw_)
-        raise Unsupported('call %s' % ast.unparse(n))
+        raise Unsupported('call %s' % _unparse(n))
     if isinstance(n, ast.Compare):
         l = ev(n.left, env, funcs)
         ok = True
@@ -572,7 +598,7 @@ def ev(n, env, funcs=None):
             elif t is ast.NotIn:
                 ok = ok and l not in r
             else:
-                raise Unsupported(ast.unparse(n))
+                raise Unsupported(_unparse(n))
             l = r
         return ok
     if isinstance(n, ast.BoolOp):
@@ -642,7 +668,7 @@ def ev(n, env, funcs=None):
             if isinstance(it, PyStub) and hasattr(it, '__iter__'):
                 it = list(it)
             if not isinstance(it, (list, tuple, range, set, str)):
-                raise Unsupported('comprehension over %s' % ast.unparse(g.iter))
+                raise Unsupported('comprehension over %s' % _unparse(g.iter))
             for item in it:
                 e2 = dict(e_)
                 _bind(g.target, item, e2)
@@ -688,7 +714,7 @@ def ev(n, env, funcs=None):
             if isinstance(it, dict) or type(it).__name__ in ('dict_keys', 'dict_values', 'dict_items'):
                 it = list(it)
             if not isinstance(it, (list, tuple, range, set, str)):
-                raise Unsupported('comprehension over %s' % ast.unparse(g.iter))
+                raise Unsupported('comprehension over %s' % _unparse(g.iter))
             for item in it:
                 e2 = dict(e_)
                 _bind(g.target, item, e2)
@@ -713,7 +739,7 @@ def ev(n, env, funcs=None):
         return tuple(ev(e, env, funcs) for e in n.elts)
     if isinstance(n, ast.List):
         return [ev(e, env, funcs) for e in n.elts]
-    raise Unsupported(ast.unparse(n) if isinstance(n, ast.AST) else str(n))
+    raise Unsupported(_unparse(n) if isinstance(n, ast.AST) else str(n))
 
 
 def free_names(n):
